@@ -446,7 +446,7 @@ func storeModelStates(run *Run) {
 
 // C14: pagination
 func C14(run *Run) {
-	if run.Replay != "" {
+	if run.Replay != "" && replayHasHistory(run.Replay) { // other replays re-run the exploration with the recorded seed
 		replayStore(run)
 		return
 	}
@@ -464,8 +464,10 @@ func C15(run *Run) {
 			judgeChanges(run, append(ev, join()...))
 			return
 		}
-		replayStore(run)
-		return
+		if replayHasHistory(run.Replay) {
+			replayStore(run)
+			return
+		}
 	}
 	chEvents, chJoin := changesProbe(run) // horizon and descending order (ChangesTrace); the API-level part waits out a one-minute horizon in the background
 	runHistories(run, histCfg{Backends: []string{"memory", "sqlite"}, Histories: run.Pick(14, 150), Steps: run.Pick(30, 60), Walks: true, Invalid: true})
@@ -477,7 +479,7 @@ func C15(run *Run) {
 
 // C16: isolation
 func C16(run *Run) {
-	if run.Replay != "" {
+	if run.Replay != "" && replayHasHistory(run.Replay) { // other replays re-run the exploration with the recorded seed
 		replayStore(run)
 		return
 	}
@@ -490,10 +492,11 @@ func C16(run *Run) {
 
 // C17: models
 func C17(run *Run) {
-	if run.Replay != "" {
+	if run.Replay != "" && replayHasHistory(run.Replay) { // other replays re-run the exploration with the recorded seed
 		replayStore(run)
 		return
 	}
+	crossStoreProbe(run) // "requests without a model id resolve to the store's latest model", also when two stores resolve at the same moment
 	runHistories(run, histCfg{Backends: []string{"memory", "sqlite"}, Histories: run.Pick(12, 120), Steps: run.Pick(40, 80), Models: true})
 	storeModelStates(run)
 	run.Coverage["rule"] = "sequences of WriteAuthorizationModel with valid variants, generated valid models and 8 kinds of structurally invalid models, interleaved with tuple writes, ReadAuthorizationModel(s) and Checks without model id; StoreTrace requires: accepted => ValidModelBasic, new id greater than all earlier ids of the store, read-back equal to the written model, newest-first listing, and every model-less Check resolved to the newest id and answered with the reference value under that model; non-trivial = distinct operations"
@@ -502,7 +505,7 @@ func C17(run *Run) {
 
 // C31: assertions
 func C31(run *Run) {
-	if run.Replay != "" {
+	if run.Replay != "" && replayHasHistory(run.Replay) { // other replays re-run the exploration with the recorded seed
 		replayStore(run)
 		return
 	}
